@@ -346,7 +346,9 @@ def inst_family(ck, bindgen, tmp, quick):
         if b == 0:
             # instantiations whose names differ only by the namespace of an argument or of the template itself
             fixed_members = [("Box<n1::E>", "value"), ("Box<n2::E>", "value"), ("n1::Wrap<int>", "value"), ("n2::Wrap<int>", "value"), ("Pair<n1::E, n2::E>", "value"),
-                             ("Pair<n2::E, n1::E>", "value"), ("Box<int>", "value"), ("Box<int>", "array"), ("Box<n1::S1>", "value"), ("Box<n2::S1>", "value")]
+                             ("Pair<n2::E, n1::E>", "value"), ("Box<int>", "value"), ("Box<int>", "array"), ("Box<n1::S1>", "value"), ("Box<n2::S1>", "value"),
+                             # an argument the user blocklists below (seed C06-4): the instantiation is still emitted, so it still needs its assertions
+                             ("Box<S>", "value"), ("Pair<S, int>", "value")]
         for ty, how in fixed_members:
             body += "  %s m%d%s;\n" % (ty, k, "[3]" if how == "array" else "")
             uses.append(("m%d" % k, ty, how))
@@ -388,7 +390,9 @@ def inst_family(ck, bindgen, tmp, quick):
             raise TieBroken("c06-inst-generator", e[-800:] + hdr)
         rc, o, e = sh2([os.path.join(tmp, "instp%d" % b)], timeout=60)
         cnum = {l.split()[0]: (int(l.split()[1]), int(l.split()[2])) for l in o.splitlines()}
-        for flags in ([], ["--enable-cxx-namespaces"], ["--rust-target", "1.73"], ["--rust-target", "1.73", "--enable-cxx-namespaces"]):
+        S_RS = "#[repr(C)] #[derive(Debug, Copy, Clone)] pub struct S { pub d: f64, pub c: ::std::os::raw::c_char }"
+        for flags in ([], ["--enable-cxx-namespaces"], ["--rust-target", "1.73"], ["--rust-target", "1.73", "--enable-cxx-namespaces"],
+                      ["--blocklist-type", "^S$", "--raw-line", S_RS], ["--blocklist-type", "^S$", "--raw-line", S_RS, "--rust-target", "1.73"]):
             rc, out, err = sh2([bindgen, p] + flags + ["--", "-x", "c++", "-std=c++17"], timeout=120)
             ck.evaluations += 1
             ck.nontrivial.add(("inst", hdr, tuple(flags)))
@@ -448,7 +452,7 @@ def inst_family(ck, bindgen, tmp, quick):
                     ck.violation("C06-inst-unasserted:not-held-by-value", "a template instantiation with concrete arguments appears in the bindings (typedef target / variable / parameter) without size / alignment assertion",
                                  dict(data, cxx_type=ty, used_as=kind))
             # rustc must accept the assertions
-            if not flags or flags == ["--enable-cxx-namespaces"]:
+            if not flags or flags == ["--enable-cxx-namespaces"] or flags[-1] == S_RS:
                 src = os.path.join(tmp, "instb%d.rs" % b)
                 open(src, "w").write("#![allow(warnings)]\n" + out + "\nfn main() {}\n")
                 rc, o, e = sh2(["rustc", "--edition", "2021", "-A", "warnings", "--emit", "metadata", "-o", os.path.join(tmp, "instb%d.rmeta" % b), src], cwd=tmp, timeout=300)
